@@ -111,6 +111,9 @@ typedef void(mon_release_hook_fn)(void *payload, size_t size, void *user);
 void mon_guard_set_release_hook(mon_release_hook_fn *fn, void *user);
 /* keep a list of live blocks (off under TSan: the list lock would add happens-before edges) */
 void mon_guard_track_live(bool on);
+/* hostile address reuse: a released block is kept in a small cache and handed to the very next acquire of the same
+ * size from ANY thread (instead of going through malloc's per-thread caches). Turning it off frees the cache. */
+void mon_guard_set_reuse(bool on);
 /* verify red zones of all tracked live blocks; reports violations with key prefix; returns errors */
 int mon_guard_check_live(const char *keyprefix);
 /* size of a live payload (from its header) */
